@@ -326,3 +326,7 @@ def r2c(cx):
                          'standard descriptor, and it is not the descriptor that was moved: if it happens to carry that standard '
                          "number (pipe ends get the lowest free numbers, e.g. 0 when stdin was closed), the command's freshly "
                          'connected input/output is closed and bytes are lost' % nm, loc=body.loc(ct))
+
+
+# --- explanation addendum (generated catalogue in DESIGN.md reads RS.explanation)
+RS.explanation += ' Added later: once a pipe end sits on a standard descriptor only the descriptor just moved is closed (R2c).'
